@@ -12,6 +12,8 @@ import (
 	"crypto/tls"
 	"fmt"
 	"io"
+	"strings"
+	"sync"
 	"time"
 
 	"github.com/imroc/req/v3/internal/testcert"
@@ -25,6 +27,24 @@ type h3Origin struct {
 	URL  string
 	C    chan origin.Obs
 	stop func()
+	mu   sync.Mutex
+	hits map[string]int
+	conn int
+}
+
+// killNow: a target holding "/killconn/" is answered, the FIRST time it is requested, by closing the
+// whole QUIC connection after the complete request (body included) was read - no response.
+func (o *h3Origin) killNow(target string) bool {
+	if !strings.Contains(target, "/killconn/") {
+		return false
+	}
+	o.mu.Lock()
+	defer o.mu.Unlock()
+	if o.hits == nil {
+		o.hits = map[string]int{}
+	}
+	o.hits[target]++
+	return o.hits[target] == 1
 }
 
 func (o *h3Origin) Close() { o.stop() }
@@ -55,6 +75,10 @@ func startH3Safe() (*h3Origin, error) {
 }
 
 func (o *h3Origin) serveConn(ctx context.Context, conn quic.Connection) {
+	o.mu.Lock()
+	o.conn++
+	seq := o.conn
+	o.mu.Unlock()
 	if cs, err := conn.OpenUniStream(); err == nil {
 		b := quicvarint.Append(nil, 0x00)
 		b = quicvarint.Append(b, 0x04)
@@ -75,12 +99,12 @@ func (o *h3Origin) serveConn(ctx context.Context, conn quic.Connection) {
 		if err != nil {
 			return
 		}
-		go o.serveStream(str)
+		go o.serveStream(str, conn, seq)
 	}
 }
 
-func (o *h3Origin) serveStream(str quic.Stream) {
-	obs := origin.Obs{Proto: 3}
+func (o *h3Origin) serveStream(str quic.Stream, conn quic.Connection, seq int) {
+	obs := origin.Obs{Proto: 3, ConnSeq: seq}
 	defer func() {
 		if e := recover(); e != nil {
 			obs.Err = fmt.Sprint("origin panic: ", e)
@@ -135,6 +159,10 @@ func (o *h3Origin) serveStream(str quic.Stream) {
 		}
 	}
 	o.C <- obs
+	if obs.Err == "" && o.killNow(obs.Target) {
+		conn.CloseWithError(0x100, "connection lost after the request was read")
+		return
+	}
 	var hb bytes.Buffer
 	enc := qpack.NewEncoder(&hb)
 	enc.WriteField(qpack.HeaderField{Name: ":status", Value: "200"})
